@@ -37,6 +37,11 @@ Proof.
 Qed.
 Print Assumptions C16_tie_operations.
 
+(* the HTTP client is constructed so that it only sends what the adapter prepared: no automatic redirect follow-ups *)
+Theorem C16_client_sends_only_prepared_requests : SigV4Gen.client_sends_only_prepared_requests = true.
+Proof. exact gen_client_sends_only_prepared_requests. Qed.
+Print Assumptions C16_client_sends_only_prepared_requests.
+
 (* urllib's quote is SigV4's UriEncode: with "/" kept on a path, with nothing kept on query names and values;
    decoding what quote produced gives back the string *)
 Theorem C16_quote_is_uri_encode : forall s,
